@@ -22,6 +22,8 @@ CHECK = {
         # scope is the word-wise masking in mask.go; the harness canaries cover what red zones miss
         {"name": "asan", "pkg": "websocket", "run": "^TestVerif_C13_Mem$", "asan": True, "env": {"VERIF_TIER": "quick"},
          "tiers": ("thorough",), "timeout": {"thorough": 3600}},
+        {"name": "broadcast", "pkg": "websocket", "run": "^TestVerif_C13_Broadcast$", "race": True, "env": RACE_ENV,
+         "timeout": {"quick": 900, "thorough": 7200}},
         {"name": "rawoffers", "pkg": "verifharness/prop/c13", "run": "^TestVerif_C13_RawClientOffers$", "race": True, "env": RACE_ENV,
          "timeout": {"quick": 600, "thorough": 3600}},
         {"name": "serverfirst", "pkg": "verifharness/prop/c13", "run": "^TestVerif_C13_ServerSpeaksFirst$", "race": True, "env": RACE_ENV,
